@@ -269,6 +269,10 @@ def _Solve_Axb(
     if not isinstance(b, sparse.csr_matrix):
         b = sparse.csr_matrix(b)
 
+    if A.shape[0] == 0 and MPI_SIZE == 1:
+        # every dof is prescribed: nothing is left to solve (lgmres raises on an empty system)
+        return np.zeros(0, dtype=float)
+
     if len(simu.Bc_Lagrange) > 0:
         if MPI_SIZE > 1:
             raise NotImplementedError(
